@@ -128,6 +128,27 @@ def run_mc(pid, tier, work, log):
     return tot_states, tot_trans, runs
 
 
+CLIENT_OPS = ('set', 'del', 'get', 'incr', 'close', 'open', 'readall')
+
+
+def client_scenarios(scen, n):
+    """the store-level scenarios (random + TLC-generated) restricted to what the client API has"""
+    out = []
+    for s in scen:
+        if s.get('family') not in ('seq', 'tlcgen') or s['conf'].get('collide'):
+            continue
+        ops = [dict(o) for o in s['ops'] if o['op'] in CLIENT_OPS]
+        for o in ops:
+            if o['op'] == 'open':
+                o['rm'] = [p for p in o.get('rm', []) if p != '@lastsplits']
+        if sum(1 for o in ops if o['op'] in ('set', 'del', 'incr')) < 2:
+            continue
+        out.append({'id': 'cl-' + s['id'], 'family': 'client', 'conf': dict(s['conf'], buckets=1, bucket=0), 'ops': ops})
+        if len(out) >= n:
+            break
+    return out
+
+
 def scenario_counts(tier):
     return {'quick': 240, 'thorough': 4000}[tier]
 
@@ -196,10 +217,26 @@ def run(pid, tier, seed, work, log, replay=None):
         gc2 = fam_conc.gc2_scenarios()
     elif pid == 'C17' and replay and scen[0].get('family') == 'gc2':
         gc2, scen = scen, []
+    # C01 / C02 are also observed where the property says clients observe them: gobeansdb.StorageClient
+    # (Set / Delete / Incr / Get / GetMulti / "?key" / "??key"), same scenarios, same trace specification
+    client = []
+    if pid in ('C01', 'C02') and not replay:
+        client = client_scenarios(scen, {'quick': 120, 'thorough': 2000}[tier])
+    elif replay and scen and scen[0].get('family') == 'client':
+        client, scen = scen, []
     # ---- (c) run on the real code + validate
     tb = V.build_harness(work)
-    traces, crashed = V.run_scenarios(tb, scen + gc2, work)
+    traces, crashed = V.run_scenarios(tb, scen + gc2, work) if scen + gc2 else ({}, [])
     res['violations'] += V.crash_verdicts(crashed, pid)
+    if client:
+        tbc = V.build_harness(work, 'gobeansdb')
+        cw = os.path.join(work, 'client')
+        os.makedirs(cw, exist_ok=True)
+        ctr, ccr = V.run_scenarios(tbc, client, cw, pkg='gobeansdb', runname='TestVerifClient')
+        res['violations'] += V.crash_verdicts(ccr, pid)
+        traces.update(ctr)
+        scen = scen + client
+        log('client level: %d scenarios through StorageClient' % len(client))
     if gc2:
         import fam_conc
         bad2, n2 = fam_conc.check_gc2({s['id']: traces.get(s['id'], []) for s in gc2})
